@@ -264,8 +264,9 @@ Definition step (o : op) (c : cat) : bool * cat :=
       match find_col x tb with
       | None => (false, c)
       | Some cl =>
-        if fk_uses_col c t x || cpk cl || (isnil (tpk tb) && existsb (fun i => iuniq i && mem x (icols i)) (tidx tb))
-        then (* column of a foreign key (error), primary key column or column of a UNIQUE index of a keyless table
+        if fk_uses_col c t x || cpk cl || mem x (pk_cols tb) || (isnil (tpk tb) && existsb (fun i => iuniq i && mem x (icols i)) (tidx tb))
+        then (* column of a foreign key (error), primary key column (by flag or by PkOrdinals, which differ once a rename
+                has garbled the key) or column of a UNIQUE index of a keyless table
                 (panic in the table rewrite): all after dropConstraints has removed the checks on the column *)
              (false, with_tables c (set_tbl t (drop_chk_col x tb) (tables c)))
         else (true, with_tables c (set_tbl t (drop_col_tbl x tb) (tables c)))   (* the only column may go too *)
